@@ -486,14 +486,16 @@ class Function:
         cls, global_ctx_name, domain, service, callback, supports_response=SupportsResponse.NONE
     ):
         """Register a new service callback."""
-        key = f"{domain}.{service}"
+        # Home Assistant lower-cases service names: every spelling is the same service
+        key = f"{domain}.{service}".lower()
         if key not in cls.service_cnt:
             cls.service_cnt[key] = 0
         if key not in cls.service2global_ctx:
             cls.service2global_ctx[key] = global_ctx_name
         if cls.service2global_ctx[key] != global_ctx_name:
             raise ValueError(
-                f"{global_ctx_name}: can't register service {key}; already defined in {cls.service2global_ctx[key]}"
+                f"{global_ctx_name}: can't register service {domain}.{service}; "
+                f"already defined in {cls.service2global_ctx[key]}"
             )
         cls.service_cnt[key] += 1
         cls.hass.services.async_register(domain, service, callback, supports_response=supports_response)
@@ -501,7 +503,7 @@ class Function:
     @classmethod
     def service_remove(cls, global_ctx_name, domain, service):
         """Remove a service callback."""
-        key = f"{domain}.{service}"
+        key = f"{domain}.{service}".lower()
         if cls.service_cnt.get(key, 0) > 1:
             cls.service_cnt[key] -= 1
             return
